@@ -68,7 +68,7 @@ prop("C02", ["contracts.c02_server", "contracts.c06_localnode"], ["OnRequest", "
               "Network.send_message does not raise (env/net.py)"],
      not_decided=["block transfer on the server side (not implemented by the library: refused with 0x05040001)"])
 
-prop("C01", ["contracts.c01_client"], ["WsInit", "WsWriteSegment", "WsWriteExpedited", "WsClose", "RsInit", "RsRead", "ReqResp", "Upload", "Download", "WsWriteProgress", "WsCloseAfterFailure"],
+prop("C01", ["contracts.c01_client"], ["WsInit", "WsWriteSegment", "WsWriteExpedited", "WsClose", "RsInit", "RsRead", "ReqResp", "Upload", "Download", "WsWriteProgress", "WsCloseAfterFailure", "WsWriteExpeditedPieces"],
      bounded=[("bounded.roundtrip", "typed_roundtrip")],
      assumed=["SdoClient.request_response as seen by the streams (env/sdoclient.py); the real function is contracted in ReqResp",
               "upload(): the stream's read() hands back the server's bytes (conclusion of UploadTheorem / RsInit / RsRead); whole "
